@@ -108,6 +108,27 @@ pub open spec fn step_spec(o: SourceBlockDecoder, n: SourceBlockDecoder, p: Enco
     }
 }
 
+// C08: delivering the same packet again changes nothing; packets with different ESIs commute up to the arrival order of repair packets
+pub proof fn lemma_step_idempotent(o: SourceBlockDecoder, m: SourceBlockDecoder, n: SourceBlockDecoder, p: EncodingPacket)
+    requires step_spec(o, m, p), step_spec(m, n, p),
+    ensures sbd_same_received(m, n),
+{
+}
+pub proof fn lemma_step_commute(o: SourceBlockDecoder, a1: SourceBlockDecoder, a2: SourceBlockDecoder, b1: SourceBlockDecoder, b2: SourceBlockDecoder,
+                                p: EncodingPacket, q: EncodingPacket)
+    requires p.payload_id.encoding_symbol_id != q.payload_id.encoding_symbol_id,
+             step_spec(o, a1, p), step_spec(a1, a2, q), step_spec(o, b1, q), step_spec(b1, b2, p),
+             o.source_symbols@.len() == o.source_block_symbols as int,
+    ensures a2.received_esi@ == b2.received_esi@, a2.source_symbols@ == b2.source_symbols@,
+            a2.received_source_symbols == b2.received_source_symbols,
+            a2.repair_packets@.to_multiset() == b2.repair_packets@.to_multiset(),     // same repair packets, possibly in another order
+{
+    broadcast use vstd::seq_lib::group_to_multiset_ensures;
+    let ep = p.payload_id.encoding_symbol_id; let eq = q.payload_id.encoding_symbol_id;
+    assert(a2.received_esi@ =~= b2.received_esi@);
+    assert(a2.source_symbols@ =~= b2.source_symbols@);
+    assert(a2.repair_packets@.to_multiset() =~= b2.repair_packets@.to_multiset());
+}
 // ---- uninterpreted results of the code left external_body (solver, matrix construction, sub-block layout)
 pub uninterp spec fn kprime_of(k: int) -> int;
 pub uninterp spec fn s_of(k: int) -> int;
